@@ -492,6 +492,42 @@ theorem jumpStep_natState (g : Gen σ α) (m : SimModel α) (ks : List Nat) (Rs 
     · exact addCol_length' s.x (colOf m.U j) (colOf m.D j) n h.len hcU hcD
   · exact ⟨⟨h.cur, h.len, hrec _⟩, rfl⟩
 
+/-- **whole runs**: every reported row and the final state of a plain mass-action network consist of whole,
+non-negative counts — for every stream of uniforms in `(0, 1]`, any number of iterations of the jump process. -/
+theorem jump_run_natState (g : Gen σ α) (m : SimModel α) (ks : List Nat) (Rs : List (List Nat)) (n : Nat)
+    (times : List α) (hnet : MANet m ks Rs n) (hu : ∀ st : σ, 0 < (g st).1 ∧ (g st).1 ≤ 1)
+    (fuel : Nat) (s s' : LoopState σ α) (hrate : ∀ k ∈ ks, 0 ≤ vecGet s.p k) (h : NatState n s)
+    (hrun : runLoop (jumpStep g m times) times.length fuel s = some s') : NatState n s' := by
+  induction fuel generalizing s with
+  | zero =>
+    unfold runLoop at hrun
+    split at hrun
+    · exact absurd hrun (by simp)
+    · cases hrun; exact h
+  | succ fuel ih =>
+    unfold runLoop at hrun
+    split at hrun
+    · obtain ⟨hns, hp⟩ := jumpStep_natState g m ks Rs n times s hnet hrate hu h
+      exact ih _ (by rw [hp]; exact hrate) hns hrun
+    · cases hrun; exact h
+
+/-- **mass-action networks never report a negative count** (`SSASimulator` on a plain mass-action network without
+rules whose reactions remove no more than their reactants): every reported row is a vector of natural numbers,
+for every stream of uniforms in `(0, 1]` and any number of iterations. -/
+theorem ssa_run_nonneg (g : Gen σ α) (m : SimModel α) (ks : List Nat) (Rs : List (List Nat)) (n : Nat)
+    (times : List α) (x0 p0 : List α) (g0 : σ) (vol0 : α) (q0 : DQ α) (hnet : MANet m ks Rs n)
+    (hu : ∀ st : σ, 0 < (g st).1 ∧ (g st).1 ≤ 1) (hrate : ∀ k ∈ ks, 0 ≤ vecGet p0 k) (hx0 : IsNatVec x0)
+    (hlen : x0.length = n) (fuel : Nat) (s' : LoopState σ α)
+    (hrun : runLoop (ssaIter g m times) times.length fuel (initState m x0 p0 g0 vol0 q0) = some s') :
+    ∀ r ∈ s'.rows, IsNatVec r := by
+  have href := ssa_refines_jump g m times fuel (initState m x0 p0 g0 vol0 q0)
+  rw [hrun] at href
+  simp only [Option.map_some] at href
+  have hinit : NatState n (strip (initState m x0 p0 g0 vol0 q0)) :=
+    ⟨by simpa [strip, initState] using hx0, by simpa [strip, initState] using hlen, by simp [strip, initState]⟩
+  have := jump_run_natState g m ks Rs n times hnet hu fuel _ (strip s') (by simpa [strip, initState] using hrate) hinit href.symm
+  simpa [strip] using this.rows
+
 end NonNeg
 
 /-! ### Non-vacuity -/
@@ -502,5 +538,21 @@ example : Reach [[(1 : ℚ), -1], [-2, 1]] [3, 0] [0, 1] := by
   have h3 := Reach.step (cols := [[(1 : ℚ), -1], [-2, 1]]) [1, -1] (by simp) h2
   norm_num [addCol] at h3
   exact h3
+
+/-- the hypotheses `MANet` are met by an ordinary network: `2A → B` and `B → A` over two species. -/
+example : MANet (α := ℚ)
+    { nSpecies := 2, props := [createMassAction 0 [0, 0], createMassAction 1 [1]], U := [[-2, 1], [1, -1]], D := [[0, 0], [0, 0]],
+      R := [], rules := [], delays := [], safe := false, dt := 1, t0 := 0, twoPi := 6 } [0, 1] [[0, 0], [1]] 2 := by
+  refine ⟨rfl, rfl, rfl, rfl, ?_, ?_, ?_⟩
+  · intro j hj
+    have : j = 0 ∨ j = 1 := by simp at hj; omega
+    rcases this with rfl | rfl <;> rfl
+  · intro j hj
+    have : j = 0 ∨ j = 1 := by simp at hj; omega
+    rcases this with rfl | rfl <;> rfl
+  · intro j hj i hi
+    have hj' : j = 0 ∨ j = 1 := by simp at hj; omega
+    have hi' : i = 0 ∨ i = 1 := by omega
+    rcases hj' with rfl | rfl <;> rcases hi' with rfl | rfl <;> decide
 
 end Bioscrape.C06
